@@ -1,7 +1,7 @@
 ---------------------------- MODULE MCNuSpaceSim ----------------------------
 EXTENDS NuSpaceSim
 MCConfigs == [mode : {"Diffuse", "Target"}, optical : BOOLEAN, radio : BOOLEAN,
-              writeStages : BOOLEAN, survivors : BOOLEAN]
+              writeStages : BOOLEAN, survivors : BOOLEAN, stale : BOOLEAN]
 MCLiveConfigs == {c \in MCConfigs : c.writeStages /\ ~c.radio}
 (* the (configuration, crash point) pairs the driver realises on the real code: a failure / death at  *)
 (* every boundary k of the run, k = NBoundaries + 1 meaning "after the last boundary"                  *)
@@ -14,7 +14,7 @@ RunBases == {<<m, s, c, a>> : m \in {"Diffuse", "Target"}, s \in {"mono", "power
                              a \in {33, 525}}
 ASSUME PrintT(<<"RUNBASES", RunBases>>)
 (* sanity of the boundary table against DESIGN Appendix B *)
-ASSUME NBoundaries([mode |-> "Diffuse", optical |-> TRUE, radio |-> TRUE, writeStages |-> TRUE, survivors |-> TRUE]) = 15
-ASSUME NBoundaries([mode |-> "Target", optical |-> TRUE, radio |-> TRUE, writeStages |-> TRUE, survivors |-> TRUE]) = 17
-ASSUME NBoundaries([mode |-> "Target", optical |-> TRUE, radio |-> TRUE, writeStages |-> TRUE, survivors |-> FALSE]) = 1
+ASSUME NBoundaries([mode |-> "Diffuse", optical |-> TRUE, radio |-> TRUE, writeStages |-> TRUE, survivors |-> TRUE, stale |-> FALSE]) = 15
+ASSUME NBoundaries([mode |-> "Target", optical |-> TRUE, radio |-> TRUE, writeStages |-> TRUE, survivors |-> TRUE, stale |-> FALSE]) = 17
+ASSUME NBoundaries([mode |-> "Target", optical |-> TRUE, radio |-> TRUE, writeStages |-> TRUE, survivors |-> FALSE, stale |-> TRUE]) = 1
 =============================================================================
